@@ -77,6 +77,22 @@ def _run(shard, nshards):
                             cl = sum(1 for k, v in lab.items() if v == seg and k[0] == "L")
                             if int(sizes.loc[seg, "node"]) != cn or int(sizes.loc[seg, "link"]) != cl:
                                 ok = False
+                        # the layer is a set of valves: a row listed twice and another row order describe the same layer
+                        if ok and valves and idx % 3 == 0:
+                            vl2 = pd.DataFrame([valves[0]] + valves[::-1], columns=["link", "node"])
+                            try:
+                                ns2, ls2, sizes2 = wntr.metrics.valve_segments(G, vl2)
+                                lab2 = {("N", n): int(ns2[n]) for n in nodes}
+                                lab2.update({("L", l): int(ls2[l]) for l, a, b in links})
+                                same = all(v >= 1 for v in lab2.values()) and all((lab2[x] == lab2[y]) == (ref[x] == ref[y]) for x, y in itertools.combinations(elems, 2)) and \
+                                    all(int(sizes2.loc[seg, "node"]) == sum(1 for k, v in lab2.items() if v == seg and k[0] == "N") and
+                                        int(sizes2.loc[seg, "link"]) == sum(1 for k, v in lab2.items() if v == seg and k[0] == "L") for seg in set(lab2.values())) and \
+                                    set(sizes2.index) == set(lab2.values())
+                            except Exception as e:
+                                same = False
+                            if not same:
+                                ok = False
+                                failures.append(dict(nodes=nodes, links=links, valves=[valves[0]] + valves[::-1], duplicated_row_or_row_order_changes_the_segments=True))
                         # valve_segment_attributes
                         if ok and valves:
                             demand = pd.Series({n: float(i + 1) for i, n in enumerate(nodes)})
@@ -112,7 +128,7 @@ def _run(shard, nshards):
         return dict(evaluations=evals, distinct_nontrivial=len(distinct), failures=failures[:10], samples=samples, exhaustive=True,
                     scope="shard %d/%d of ALL multigraphs with 2..%d nodes and 1..%d links (parallel links included) x ALL valve layers (any subset of the "
                           "2 x links link-end incidences): labels positive, same label iff joined without passing a valve (union-find reference), segment "
-                          "sizes count members, valve_segment_attributes (other bounding valves, relative demand / length gained, 0 when both sides equal)"
+                          "sizes count members, a duplicated row / reversed row order gives the same segments (every third case), valve_segment_attributes (other bounding valves, relative demand / length gained, 0 when both sides equal)"
                           % (shard, nshards, max_nodes, max_links))
     return run
 
